@@ -168,9 +168,13 @@ impl Case for C01 {
     }
 }
 
-fn pick_id(rng: &mut Rng, g: &G) -> usize {
+fn pick_id(rng: &mut Rng, g: &G, grows: bool) -> usize {
     let vs = g.vlist();
     let m = g.max_id();
+    if grows && rng.chance(1, 5) {
+        // small ids with gaps: vertex sets such as {0, 2, 5} or {0, 1, 10}
+        return rng.below(12);
+    }
     match rng.below(20) {
         0..=13 => rng.pick(&vs),
         14 => m.wrapping_add(1),
@@ -205,7 +209,7 @@ pub fn random_history(
     let mut g = make_model(start, order);
     let mut ops = Vec::new();
     for _ in 0..len {
-        let (mut u, mut v) = (pick_id(rng, &g), pick_id(rng, &g));
+        let (mut u, mut v) = (pick_id(rng, &g, grows), pick_id(rng, &g, grows));
         if boundary_cells && rng.chance(2, 3) {
             // cells next to a 64-bit block boundary of the bit matrix
             let cells = order * order;
@@ -216,6 +220,12 @@ pub fn random_history(
         }
         if rng.chance(1, 12) {
             v = u;
+        }
+        if !grows && rng.chance(1, 8) {
+            // tail in range, head just outside: has_arc(0, order),
+            // remove_arc(0, order + 1), add_arc(1, order) ...
+            u = rng.below(order);
+            v = order + rng.below(3);
         }
         if rng.chance(1, 4) && !g.arcs.is_empty() {
             // aim at an existing arc (re-add / remove / toggle off)
@@ -283,8 +293,8 @@ pub fn search_c01(seed: u64, ctx: &mut Ctx) -> Option<J> {
         }
     }
     // bit-block boundaries of the matrix
-    for round in 0..600 {
-        for order in [8usize, 9, 63, 64, 65] {
+    for round in 0..500 {
+        for order in [8usize, 9, 11, 63, 64, 65] {
             let len = 1 + rng.below((2 + round / 4).min(15));
             let ops =
                 random_history(&mut rng, "AdjacencyMatrix", "empty", order, len, true);
@@ -583,6 +593,62 @@ pub fn search_c02(seed: u64, ctx: &mut Ctx) -> Option<J> {
             if order == 4 && ctx.expired() {
                 return None;
             }
+        }
+    }
+    // AdjacencyMap with small gapped vertex sets: every arc subset
+    for ids in [[0usize, 2, 5], [0, 1, 10], [0, 63, 64]] {
+        for mask in 0..64u64 {
+            let mut g = G {
+                verts: ids.iter().copied().collect(),
+                arcs: Default::default(),
+            };
+            let mut i = 0;
+            for &u in &ids {
+                for &v in &ids {
+                    if u != v {
+                        if mask >> i & 1 == 1 {
+                            let _ = g.arcs.insert((u, v), 1);
+                        }
+                        i += 1;
+                    }
+                }
+            }
+            let walks = random_walks(&mut rng, &g);
+            let c = C02 {
+                repr: "AdjacencyMap".to_string(),
+                g,
+                walks,
+            };
+            if let Some(f) = ctx.eval(&c) {
+                return Some(f);
+            }
+        }
+    }
+    // orders around the 64-bit blocks of the bit matrix, every representation
+    // (has_arc / has_edge / remove_arc are probed with the tail in range and
+    // the head at order, order + 1, a far-out id and usize::MAX)
+    for round in 0..4 {
+        for order in [8usize, 9, 11, 63, 64, 65] {
+            for repr in ALL_REPRS {
+                let mut g = match round {
+                    0 => structured("circuit", order, &[]),
+                    1 => make_model("complete", order),
+                    _ => random_g(&mut rng, order, &[]),
+                };
+                reweigh(&mut rng, &mut g, repr);
+                let walks = random_walks(&mut rng, &g);
+                let c = C02 {
+                    repr: repr.to_string(),
+                    g,
+                    walks,
+                };
+                if let Some(f) = ctx.eval(&c) {
+                    return Some(f);
+                }
+            }
+        }
+        if ctx.expired() {
+            return None;
         }
     }
     // seeded random up to order 6, and non-contiguous AdjacencyMap digraphs
